@@ -1,4 +1,4 @@
-CONSTANTS MaxLin = 1 MaxQuad = 1 MaxQuadLin = 1 MaxMono = 2 MaxMonoLen = 3
+CONSTANTS MaxLin = 1 MaxQuad = 1 MaxQuadLin = 1 MaxMono = 2 MaxMonoLen = 2
 INIT Init
 NEXT DoEvalBound
 INVARIANT Emit
